@@ -43,8 +43,11 @@ inductive EmitRes (J : Type) where
   | trap                         -- a panic inside import resolution / the printer
   deriving DecidableEq, Repr
 
-/-- what emission may look at in a loaded document: its (unresolved) import paths and its source text -/
-abbrev DocView (P S : Type) := List P × S
+/-- a parsed document held in `loaded_files`: its (unresolved) import paths and the source text it borrows -/
+structure Doc (P S : Type) where
+  imports : List P
+  src : S
+  deriving DecidableEq, Repr
 
 structure Env (P S J : Type) where
   /-- `parse_operation_document` then `resolve_operation_extensions`: error code, or the import paths in order -/
@@ -52,20 +55,14 @@ structure Env (P S J : Type) where
   /-- `resolve_relative_path(from_file, import_path)` -/
   resolve : P → P → P
   /-- `resolve_operation_imports((root, ..), TaskOperationResolver(task))` then `print_js` -/
-  emit : P → (P → Option (DocView P S)) → EmitRes J
+  emit : P → (P → Option (Doc P S)) → EmitRes J
 
 /-! ### state -/
 
-/-- a parsed document held in `loaded_files`; it borrows the leaked buffer `buf` -/
-structure Doc (P S : Type) where
-  imports : List P
-  src : S
-  buf : Nat
-  deriving DecidableEq, Repr
-
 structure Task (P S : Type) where
   root : P
-  files : List (P × Doc P S)
+  files : List (P × Doc P S)     -- `loaded_files`
+  borrows : List (P × Nat)       -- ghost: the leaked buffer that the document at each path borrows
   drops : List Nat               -- `source_drop_list` (buffer ids)
   deriving DecidableEq, Repr
 
@@ -148,14 +145,15 @@ def register {P S J : Type} [DecidableEq P] (env : Env P S J) (who : Option Nat)
       err := some c }
   | .ok imps =>
     { task := { task with drops := task.drops ++ [heap.length],
-                          files := insert f { imports := imps, src := s, buf := heap.length } task.files }
-      heap := unborrow ((lookup task.files f).toList.map (·.buf)) heap
+                          files := insert f { imports := imps, src := s } task.files,
+                          borrows := insert f heap.length task.borrows }
+      heap := unborrow ((task.borrows.filter fun e => decide (e.1 = f)).map (·.2)) heap
               ++ [{ id := heap.length, owner := who, freed := 0, borrowed := true, bad := false }]
       err := none }
 
 /-- `Drop for Task`: clear `loaded_files` first, then free every buffer of the drop list -/
 def dropTask {P S : Type} (who : Option Nat) (heap : List Buf) (task : Task P S) : List Buf :=
-  freeBufs who task.drops (unborrow (task.files.map (·.2.buf)) heap)
+  freeBufs who task.drops (unborrow (task.borrows.map (·.2)) heap)
 
 /-! ### `get_required_files` -/
 
@@ -165,11 +163,8 @@ def targets {P S J : Type} (env : Env P S J) (files : List (P × Doc P S)) : Lis
 
 def addNew {P : Type} [DecidableEq P] (acc : List P) (p : P) : List P := if p ∈ acc then acc else acc ++ [p]
 
-def requiredOf {P S J : Type} [DecidableEq P] (env : Env P S J) (task : Task P S) : List P :=
-  ((targets env task.files).filter fun p => (lookup task.files p).isNone).foldl addNew []
-
-def viewOf {P S : Type} [DecidableEq P] (files : List (P × Doc P S)) : P → Option (DocView P S) :=
-  fun p => (lookup files p).map fun d => (d.imports, d.src)
+def requiredOf {P S J : Type} [DecidableEq P] (env : Env P S J) (files : List (P × Doc P S)) : List P :=
+  ((targets env files).filter fun p => (lookup files p).isNone).foldl addNew []
 
 /-! ### the step function -/
 
@@ -178,15 +173,15 @@ def stepCall {P S J : Type} [DecidableEq P] (env : Env P S J) (σ : St P S J) : 
     match env.parse s with
     | .error c =>
       -- the task is built, registration fails, the task is dropped; no id is consumed
-      let r := register env none σ.heap { root := f, files := [], drops := [] } f s
+      let r := register env none σ.heap { root := f, files := [], borrows := [], drops := [] } f s
       ({ σ with heap := dropTask none r.heap r.task, result := some (.msg (.source c)) }, .failed (.source c))
     | .ok _ =>
-      let r := register env (some σ.next) σ.heap { root := f, files := [], drops := [] } f s
+      let r := register env (some σ.next) σ.heap { root := f, files := [], borrows := [], drops := [] } f s
       ({ σ with next := σ.next + 1, tasks := (σ.next, r.task) :: σ.tasks, heap := r.heap }, .taskId σ.next)
   | .required t =>
     match lookup σ.tasks t with
     | none => ({ σ with result := some (.msg .taskNotFound) }, .failed .taskNotFound)
-    | some task => ({ σ with result := some (.files (requiredOf env task)) }, .files (requiredOf env task))
+    | some task => ({ σ with result := some (.files (requiredOf env task.files)) }, .files (requiredOf env task.files))
   | .load t f s =>
     match lookup σ.tasks t with
     | none => ({ σ with result := some (.msg .taskNotFound) }, .failed .taskNotFound)
@@ -203,7 +198,7 @@ def stepCall {P S J : Type} [DecidableEq P] (env : Env P S J) (σ : St P S J) : 
       match lookup task.files task.root with
       | none => ({ σ with dead := true }, .trap)          -- `expect("Root file should be present")`
       | some _ =>
-        match env.emit task.root (viewOf task.files) with
+        match env.emit task.root (lookup task.files) with
         | .js j => ({ σ with result := some (.js j) }, .js j)
         | .err c => ({ σ with result := some (.msg (.source c)) }, .failed (.source c))
         | .trap => ({ σ with dead := true }, .trap)
